@@ -15,7 +15,7 @@ TECHNIQUE = ("Coq theorems: layout length / palindrome / doubled centre and the 
              "the perturbed phases at every parameter value). The "
              "executable model (layout, complex-interval response, dual-number Jacobian) is compared with SymmetricQSPProtocol on "
              "generated reduced phases, update histories with interleaved use, and sample points")
-LEVEL_TEXT = ("Props/C12.v: 11 theorems universally quantified over reduced phases, histories, signal values. Per run: full_phases after "
+LEVEL_TEXT = ("Props/C12.v: 10 theorems universally quantified over reduced phases, histories, signal values. Per run: full_phases after "
               "every update = model layout = freshly built protocol (exact); gen_unitary / gen_response_re/im against the verified "
               "complex-interval evaluation of the defining Wx product of the model's layout; gen_jacobian f against check_jac_f and df "
               "column by column against the dual-interval enclosure.")
